@@ -77,11 +77,14 @@ class Ctx:
         """Record discharged if cond else violated."""
         return self.ok(rule, subject, construct, **kw) if cond else self.bad(rule, subject, construct, **kw)
 
-    def instance(self, name: str, count: int, minimum: int):
-        """Vacuity guard: a rule instance count below the hand-confirmed minimum is an analysis error."""
-        self.instances[name] = {"count": count, "min": minimum}
-        if count < minimum:
-            self.errors.append(f"vacuity guard: {name} matched {count} < minimum {minimum}")
+    def instance(self, name: str, count: int, confirmed: int):
+        """Vacuity guard.  `confirmed` is the instance count confirmed by hand on the snapshot tree; a rule that now matches
+        fewer than half of that (or nothing) is treated as matching vacuously: analysis error, never a pass.  The floor is
+        deliberately not the exact count, so that adding or removing a single site is not an error in itself."""
+        floor = max(1, (confirmed + 1) // 2)
+        self.instances[name] = {"count": count, "confirmed_on_snapshot": confirmed, "floor": floor}
+        if count < floor:
+            self.errors.append(f"vacuity guard: {name} matched {count} < floor {floor} (confirmed on the snapshot tree: {confirmed})")
 
     def error(self, msg: str):
         self.errors.append(msg)
